@@ -160,7 +160,7 @@ func parseOp(name, class, text string, call func(inst any, buf []byte) (any, err
 
 var validDocs = []struct{ class, text string }{
 	{"scalar", `17`}, {"array", `[1,"a",true,null]`}, {"object", `{"a":{"b":[1,2]},"c":"x"}`},
-	{"big", `[123456789012345678901234,0.5,-3]`}, {"escapes", `["aA\n\"","😀"]`},
+	{"big", `[123456789012345678901234,0.5,-3]`}, {"escapes", `["aA\n\"","😀"]`}, {"uescapes", `{"k\u0041":"x\u0041y\u00e9","n":null,"t":true,"f":false}`},
 }
 
 var invalidDocs = []struct{ class, text string }{
@@ -225,6 +225,17 @@ func ojParser() *kind {
 		parseOp("Parse:numconv-string", "config", validDocs[3].text, func(i any, b []byte) (any, error) { return P(i).Parse(b, ojg.NumConvString) }),
 		parseOp("Parse:bad-option", "aborted", `[1]`, func(i any, b []byte) (any, error) { return P(i).Parse(b, 5) }),
 		parseOp("Unmarshal:struct", "config", `{"a":3,"b":"x","c":[1,2]}`, func(i any, b []byte) (any, error) {
+			var s sample
+			err := P(i).Unmarshal(b, &s)
+			return fmt.Sprintf("%+v", s), err
+		}),
+		// every entry point also on malformed text: its error path has to put back what it changed
+		parseOp("Unmarshal:malformed", "invalid", `{"a":3,"b":`, func(i any, b []byte) (any, error) {
+			var s sample
+			err := P(i).Unmarshal(b, &s)
+			return fmt.Sprintf("%+v", s), err
+		}),
+		parseOp("Unmarshal:wrong-type", "invalid", `{"a":"not a number"}`, func(i any, b []byte) (any, error) {
 			var s sample
 			err := P(i).Unmarshal(b, &s)
 			return fmt.Sprintf("%+v", s), err
@@ -402,6 +413,11 @@ func senParser() *kind {
 		}),
 		parseOp("Parse:numconv-string", "config", senValid[4].text, func(i any, b []byte) (any, error) { return P(i).Parse(b, ojg.NumConvString) }),
 		parseOp("Unmarshal:struct", "config", `{a:3 b:x c:[1 2]}`, func(i any, b []byte) (any, error) {
+			var s sample
+			err := P(i).Unmarshal(b, &s)
+			return fmt.Sprintf("%+v", s), err
+		}),
+		parseOp("Unmarshal:malformed", "invalid", `{a:3 b:`, func(i any, b []byte) (any, error) {
 			var s sample
 			err := P(i).Unmarshal(b, &s)
 			return fmt.Sprintf("%+v", s), err
@@ -638,6 +654,11 @@ func pooledOj() *kind {
 			err := oj.Unmarshal(b, &s)
 			return fmt.Sprintf("%+v", s), err
 		}),
+		parseOp("Unmarshal:malformed", "invalid", `{"a":3,"b":`, func(_ any, b []byte) (any, error) {
+			var s sample
+			err := oj.Unmarshal(b, &s)
+			return fmt.Sprintf("%+v", s), err
+		}),
 	)
 	for _, v := range append(writeValues(), failing()...) {
 		v := v
@@ -683,6 +704,11 @@ func pooledSen() *kind {
 		parseOp("Parse:numconv-string", "config", senValid[4].text, func(_ any, b []byte) (any, error) { return sen.Parse(b, ojg.NumConvString) }),
 		parseOp("ParseReader:read-fails", "aborted", `{a:[1 2 "x" +`, func(_ any, b []byte) (any, error) { return sen.ParseReader(&failReader{data: b, n: len(b)}) }),
 		parseOp("Unmarshal:struct", "config", `{a:3 b:x c:[1 2]}`, func(_ any, b []byte) (any, error) {
+			var s sample
+			err := sen.Unmarshal(b, &s)
+			return fmt.Sprintf("%+v", s), err
+		}),
+		parseOp("Unmarshal:malformed", "invalid", `{a:3 b:`, func(_ any, b []byte) (any, error) {
 			var s sample
 			err := sen.Unmarshal(b, &s)
 			return fmt.Sprintf("%+v", s), err
